@@ -9,7 +9,7 @@ from ..cfg import ENTRY, EXIT
 from ..core import AnalysisError, FuncInfo, Report, call_name, dotted, unparse
 from ..ctx import Ctx
 from ..effects import mutating_closure, primary_mutators
-from .util import (actual, calls_in, enclosing, norm_compare,
+from .util import (actual, calls_in, canon_test, enclosing, norm_compare,
                    shared_object_uses)
 
 EXPLANATION = (
@@ -46,6 +46,7 @@ def check(rep: Report, ctx: Ctx) -> None:
     r77(rep, ctx)
     r78(rep, ctx)
     r79(rep, ctx)
+    r710(rep, ctx)
 
 
 def r71(rep: Report, ctx: Ctx, det: FuncInfo) -> None:
@@ -566,3 +567,44 @@ def r79(rep: Report, ctx: Ctx) -> None:
     if n_armed == 0:
         rep.ob("R7.9", "no component is revised after classification", True,
                fi=top, node=top.node, detail="obligation not armed")
+
+
+# --------------------------------------------------------------------------
+def r710(rep: Report, ctx: Ctx) -> None:
+    """Inside the carved-out body only two kinds of edges may be cut: the
+    identified loop-back edges (``loop.edges_to_remove``) and edges that
+    leave / enter the loop (one endpoint outside ``loop.loop_events``), plus
+    every out-edge of a break event.  Cutting any other edge between two loop
+    events drops a dependency of the input that then lies in no loop body
+    (an inner cycle that the recursive decomposition should have nested)."""
+    rep.rule("R7.10", "carving the body cuts only loop-back edges and edges "
+             "crossing the loop boundary", 3)
+    fi = ctx.func("remove_loop_edges")
+    cutter = ctx.func("remove_event_edges_and_event_sets")
+    lp = fi.params()[0]
+    reach = ctx.reach(fi)
+    for c in calls_in(ctx, fi, cutter):
+        a = actual(c, cutter, cutter.params()[0])
+        src = reach.resolve(a, at=c) if a is not None else None
+        while isinstance(src, ast.Call) and dotted(src.func) in (
+                "set", "list", "frozenset", "tuple") and src.args:
+            src = reach.resolve(src.args[0], at=c)
+        how, ok = "?", False
+        if isinstance(src, ast.Attribute) and src.attr == "edges_to_remove":
+            how, ok = "the identified loop-back edges", True
+        elif isinstance(src, (ast.SetComp, ast.ListComp, ast.GeneratorExp)):
+            g = src.generators[0]
+            it = unparse(g.iter)
+            if f"{lp}.break_events" in it and "out_edges" in it:
+                how, ok = "every out-edge of a break event", True
+            else:
+                outside = [t for t in g.ifs if canon_test(t)[0] == "cmp"
+                           and canon_test(t)[2] == "NotIn"
+                           and canon_test(t)[3] == f"{lp}.loop_events"]
+                how = f"edges of {it[:50]} filtered by {[unparse(t) for t in g.ifs]}"
+                ok = len(outside) == 1 and len(g.ifs) == 1
+        rep.ob("R7.10", f"cut: {unparse(a)[:40]}", ok, fi=fi, node=c,
+               detail=how + ("" if ok else " -- edges between two events of "
+                             "the loop are cut although they are not "
+                             "loop-back edges: an inner cycle disappears "
+                             "instead of becoming a nested loop"))
